@@ -97,6 +97,29 @@ func runC02(r *Report) {
 		}
 	}
 
+	// R02g: a slot is released only after its reply was delivered: no send on a result channel is
+	// reachable from FinishResult before the next NextResultCh (the slot and its channel may
+	// already belong to the next caller).
+	nFin := 0
+	for _, fn := range p.Funcs("rueidis.(*pipe).") {
+		for _, s := range CallSites(fn, "iface:rueidis.queue.FinishResult") {
+			nFin++
+			late, at := Reaches(s, func(x Site) bool {
+				sd, ok := x.Instr.(*ssa.Send)
+				return ok && strings.Contains(shortType(sd.Chan.Type()), "RedisResult")
+			}, func(x Site) bool {
+				_, is := CallTo(x.Instr, "iface:rueidis.queue.NextResultCh")
+				return is
+			})
+			why := "the reply is delivered before the slot is released"
+			if late {
+				why = "after FinishResult released the slot, a reply is still sent on a result channel at " + p.Pos(InstrPos(at.Instr)) + " without a new NextResultCh: the slot (and its channel) may already belong to another caller, who would receive this reply"
+			}
+			r.ObSite("R02g", s, "deliver-before-release", !late, why)
+		}
+	}
+	r.Anchor("R02g", "FinishResult call sites in pipe", nFin >= 3)
+
 	// R02b guarded fields
 	for _, f := range []string{"mark", "one", "multi", "resps", "slept"} {
 		r.FieldLockCheck("R02b", nodeT, f, "c1.L", ringFns)
